@@ -150,7 +150,7 @@ theorem rdRel_eng : EngRel rdRel where
 theorem enqueueQ_rd (b : Bool) (e : Ev) (s : St) : rdRel s (enqueueQ b e s) := by
   unfold enqueueQ rdRel; split <;> rfl
 theorem hooksFlagged_rd (u : UEnv) (m : Machine) : HooksRel rdRel (hooksFlagged u m) :=
-  ⟨enqueueQ_rd false, enqueueQ_rd false⟩
+  ⟨enqueueQ_rd true, enqueueQ_rd true⟩
 
 theorem syncMacro_rd (m : Machine) (u : UEnv) (e : Ev) (s : St) : (syncMacro m u e s).raiseDepth = s.raiseDepth := by
   have h1 := processEvent_rel rdRel_eng (hooksFlagged u m) (hooksFlagged_rd u m) .sync m u e
@@ -159,30 +159,18 @@ theorem syncMacro_rd (m : Machine) (u : UEnv) (e : Ev) (s : St) : (syncMacro m u
     (processEvent (hooksFlagged u m) .sync m u e (emit ("#recv:" ++ e.type) s))
   exact rdRel_eng.trans (a := emit ("#recv:" ++ e.type) s) h1 h2
 
-theorem drainLoop_rd (m : Machine) (u : UEnv) : ∀ (budget : Nat) (s : St),
-    (drainLoop m u budget s).raiseDepth = s.raiseDepth := by
-  intro budget
-  induction budget with
-  | zero => intro s; rw [drainLoop_zero]; split <;> rfl
-  | succ n ih =>
-    intro s
-    cases hq : s.queue with
-    | nil => rw [drainLoop_nil m u n s hq]
-    | cons q rest =>
-      by_cases hrun : s.status = "running"
-      · rw [drainLoop_cons m u n s q rest hq hrun]
-        have h1 : (syncMacro m u q.ev { s with queue := rest }).raiseDepth = s.raiseDepth :=
-          syncMacro_rd m u q.ev { s with queue := rest }
-        split
-        · exact h1
-        · rw [ih]; exact h1
-      · rw [drainLoop_not_running m u n hrun]; split <;> rfl
+theorem drainLoop_rd (m : Machine) (u : UEnv) (fuel c : Nat) (s : St) :
+    (drainLoop m u fuel c s).raiseDepth = s.raiseDepth := by
+  apply drainLoop_ind m u (fun s' => s'.raiseDepth = s.raiseDepth)
+  · intro s' q h; exact h
+  · intro s' e h; exact (syncMacro_rd m u e s').trans h
+  · rfl
 
 theorem syncSend_running (m : Machine) (u : UEnv) (e : Ev) (s : St) (hrun : s.status = "running") :
-    syncSend m u e s = drainLoop m u (m.maxIterations + (s.queue.length + 1)) { s with queue := s.queue ++ [⟨e, false⟩] } := by
-  unfold syncSend sndUnflagged drainFlagged drainBudget
+    syncSend m u e s = drainLoop m u (drainFuel m { s with queue := s.queue ++ [⟨e, false⟩] }) 0
+      { s with queue := s.queue ++ [⟨e, false⟩] } := by
+  unfold syncSend sndUnflagged drainFlagged
   rw [if_pos hrun]
-  simp
 
 /-- a call of the sync engine that does not raise ends in a quiescent state again -/
 theorem syncSend_quiescent (m : Machine) (u : UEnv) (e : Ev) (s : St) (hq : Quiescent m s)
@@ -190,9 +178,10 @@ theorem syncSend_quiescent (m : Machine) (u : UEnv) (e : Ev) (s : St) (hq : Quie
   by_cases hrun : s.status = "running"
   · have hh := syncSend_histQ (diSorted_recClosed m) u e s hq.hist
     rw [syncSend_running m u e s hrun] at he hh ⊢
-    refine ⟨drainLoop_queue_nil m u _ _ he, ?_, ?_, hh⟩
+    refine ⟨drainLoop_queue_nil m u _ _ _ he, ?_, ?_, hh⟩
     · rw [drainLoop_rd]; exact hq.rd
-    · have h := drainLoop_status m u (m.maxIterations + (s.queue.length + 1)) { s with queue := s.queue ++ [⟨e, false⟩] }
+    · have h := drainLoop_status m u (drainFuel m { s with queue := s.queue ++ [⟨e, false⟩] }) 0
+        { s with queue := s.queue ++ [⟨e, false⟩] }
       rcases h with h | ⟨_, h⟩
       · left; rw [h]; exact hrun
       · right; exact h
@@ -227,7 +216,7 @@ theorem syncStart_quiescent (m : Machine) (u : UEnv) (he : (syncStart m u {}).er
       split
       · rename_i h2; rw [if_pos h2] at he; rw [he] at h2; exact absurd h2 (by simp)
       · rename_i h2; rw [if_neg h2] at he
-        exact drainLoop_queue_nil m u _ _ he
+        exact drainLoop_queue_nil m u _ _ _ he
   · rw [syncStart_eq]
     split
     · exact syncEntered_rd m u {}
